@@ -22,6 +22,7 @@ type histOpts struct {
 	pctReplicas bool
 	overrides   bool
 	settings    bool
+	migration   bool
 }
 
 func genStrategy(r *rand.Rand, o histOpts, canary bool, defMode string) StrategyDef {
@@ -119,6 +120,12 @@ func genHistory(r *rand.Rand, tier string, o histOpts) *World {
 	if o.overrides {
 		w.Extra["overrides"] = "1"
 	}
+	if o.migration && chance(r, 0.5) {
+		w.EDS[0].OldDS = "legacy"
+		w.Foreign = chance(r, 0.7)
+	} else if o.twoEDS {
+		w.Foreign = chance(r, 0.3)
+	}
 	cfg := &w.Cfg
 	cfg.ChaosSteps = pick(r, 30, 60, 120, 200)
 	if tier == "thorough" {
@@ -174,10 +181,10 @@ func histProfile(name string, decide []string, quick, thorough int, o histOpts, 
 func init() {
 	register(histProfile("C01", []string{"C01"}, 1500, 60000, histOpts{maxNodes: 6, pCanary: 0.4, fancy: []float64{0.3, 0.7}, faults: true}, "C01.create", "C01.dup", "C01.ineligible"))
 	register(histProfile("C09", []string{"C09"}, 1500, 60000, histOpts{maxNodes: 8, pCanary: 0.2, fancy: []float64{0, 0.3}, faults: true}, "C09.creates", "C09.spacing", "C09.update-del"))
-	register(histProfile("C12", []string{"C12"}, 1200, 50000, histOpts{maxNodes: 4, pCanary: 0.4, fancy: []float64{0, 0.3}, faults: true, twoEDS: true}, "C12.foreign-listed", "C12.write"))
+	register(histProfile("C12", []string{"C12"}, 1200, 50000, histOpts{maxNodes: 4, pCanary: 0.4, fancy: []float64{0, 0.3}, faults: true, twoEDS: true, migration: true}, "C12.foreign-listed", "C12.write"))
 	register(histProfile("C13", []string{"C13"}, 1500, 60000, histOpts{maxNodes: 4, pCanary: 0.5, fancy: []float64{0.3, 0.7}, faults: true}, "C13.create", "C13.delete", "C13.podtemplate"))
 	register(histProfile("C14", []string{"C14"}, 1500, 60000, histOpts{maxNodes: 6, pCanary: 0.5, fancy: []float64{0, 0.3}, faults: true}, "C14.eds", "C14.ers"))
-	register(histProfile("C02", []string{"C02"}, 800, 40000, histOpts{maxNodes: 6, pCanary: 0.5, fancy: []float64{0, 0.3, 0.7}, faults: true, sane: true, c02: true}, "C02.converged"))
+	register(histProfile("C02", []string{"C02"}, 800, 40000, histOpts{maxNodes: 6, pCanary: 0.5, fancy: []float64{0, 0.3, 0.7}, faults: true, sane: true, c02: true, migration: true}, "C02.converged"))
 }
 
 // ---------------------------------------------------------------------------------------
